@@ -156,6 +156,7 @@ add('verify_mmr_proof', r'^mmr_index\(end_number\)$', 'end_number <= MMR_LEAF_IN
 add('LightClientProtocol::get_last_state_proof', r'^expect\(Peers::get_state\(\.\.\)\)$', 'every caller established the peer exists (get_peer_state / update_last_state succeeded / peers iterated from the map) in the same handler, and peers are removed only by the same protocol handler')
 add('LightClientProtocol::update_prove_state_to_child', r'^total_difficulty\(', TD_INV)
 add('LightClientProtocol::commit_prove_state', r'^total_difficulty\(', TD_INV)
+add('LightClientProtocol::commit_prove_state', r'^overflow\(-\)\(Add\(to_number, 1_u64\)\.0, start_number\)$', 'in the else-arm of `start_number > to_number`: start_number <= to_number, so to_number + 1 - start_number >= 1 (F53 fix)', ['cmp:Gt(start_number, to_number)'])
 add('LightClientProtocol::commit_prove_state', r'^overflow\(\+\)\(to_number, 1_u64\)$', 'to_number is the number of a reorg header whose hash equals a stored last-N header: a proven header number (<= MMR_LEAF_INDEX_MAX, checked by verify_mmr_proof) (F42 fix)')
 add('LightClientProtocol::commit_prove_state', r'^overflow\(\+\)\(Option::unwrap_or\(\.\.\), 1_u64\)$', 'start_number of a stored MATCHED_BLOCKS record or a block number found in the stored last-N headers (store values)')
 add('LightClientProtocol::build_prove_request_content', r'^total_difficulty\(', TD_INV)
